@@ -93,6 +93,10 @@ pub fn run_case(prop: &'static dyn Prop, case: &Case) -> CaseResult {
     let mut fp = Fp(0);
     for r in results {
         fp.add(r.cx.fp.0);
+        for (k, v) in &r.cx.out {
+            fp.add_str(k);
+            fp.add_str(v);
+        }
         fp.add(r.steps);
         fp.add(r.sched.trace);
         for v in r.cx.viol {
@@ -139,6 +143,8 @@ pub fn run_case(prop: &'static dyn Prop, case: &Case) -> CaseResult {
     for (k, v) in cx.counters {
         *out.counters.entry(k).or_insert(0) += v;
     }
+    out.nt.extend(cx.nt);
+    out.states.extend(cx.states);
     fp.add(cx.fp.0);
     for v in &out.viol {
         fp.add_str(&v.oracle);
